@@ -415,6 +415,8 @@ def literals(guard_ir):
             return None
         if c[0] == "bin" and c[1] == "is not":
             return {(("bin", "is", c[2], c[3]), not pol)}
+        if c[0] == "bin" and c[1] == "not in":
+            return {(("bin", "in", c[2], c[3]), not pol)}
         if c[0] == "bin" and c[1] == "!=":
             return {(("bin", "==", c[2], c[3]), not pol)}
         if c[0] == "bin" and c[1] == "<":
